@@ -624,7 +624,8 @@ def def_name(line):
 
 def gen_c29(seed, idx):
     r = SplitMix.derive(seed, "C29", idx)
-    two = r.chance(0.2)
+    two = r.chance(0.3)
+    pyimp = (not two) and r.chance(0.35)      # a single document that is still a node of the module graph
     names = ["a.er", "b.er"] if two else ["a.er"]
     ctr = [0]
 
@@ -642,11 +643,14 @@ def gen_c29(seed, idx):
     if two:
         docs["b.er"] = [f".k{j} = {r.range(0, 50)}" for j in range(r.range(1, 3))]
         docs["a.er"] = program(r.range(2, 10), prefix=['b = import "b"', "a0 = b.k0 + 1"])
+    elif pyimp:
+        docs["a.er"] = program(r.range(3, 10), prefix=['pm = pyimport "math"', "a0 = pm.floor(2.5)"])
     else:
         docs["a.er"] = program(r.range(3, 12))
     events = [["wait", r.pick([0, 50, 600])]]
     cur = {n: list(docs[n]) for n in names}
-    think = [0, 0, 1, 20, 100, 300, 450, 500, 520, 600, 900, 2000]
+    think = [0, 0, 0, 1, 20, 100, 300, 450, 500, 520, 600, 900, 2000]
+    history = []        # (doc, line index, previous text) of modifications, for `undo`
     for n in (["b.er", "a.er"] if two else ["a.er"]):
         events.append(["open", n, "\n".join(cur[n]) + "\n"])
         events.append(["wait", r.pick(think)])
@@ -655,8 +659,45 @@ def gen_c29(seed, idx):
         lines = cur[n]
         changes = []
         for _c in range(r.pick([1, 1, 1, 2, 3])):
-            op = r.pick(["add", "add", "del", "mod", "mod"])
-            lo = 2 if (two and n == "a.er") else 0        # keep the import lines of a.er
+            op = r.pick(["add", "add", "del", "mod", "mod", "neutral", "midline", "undo"])
+            lo = 2 if ((two or pyimp) and n == "a.er") else 0        # keep the import lines of a.er
+            if op == "neutral" and len(lines) > lo:
+                # an edit that starts at column 0 and leaves the program as it was: a blank line, a
+                # comment, or the same definition typed again
+                k = r.range(lo, len(lines) - 1)
+                kind = r.below(3)
+                if kind == 0:
+                    changes.append({"range": [k, 0, k, 0], "text": "\n"})
+                    lines = lines[:k] + [""] + lines[k:]
+                elif kind == 1:
+                    changes.append({"range": [k, 0, k, 0], "text": "# note\n"})
+                    lines = lines[:k] + ["# note"] + lines[k:]
+                else:
+                    changes.append({"range": [k, 0, k, len(lines[k])], "text": lines[k]})
+                continue
+            if op == "midline" and len(lines) > lo:
+                # change a number in the middle of a line (no column-0 start)
+                import re as _re
+                cands = [(k, m_) for k in range(lo, len(lines)) for m_ in _re.finditer(r"\d+", lines[k]) if m_.start() > 0]
+                if cands:
+                    k, m_ = r.pick(cands)
+                    new = str(r.range(0, 99))
+                    history.append((n, k, lines[k]))
+                    changes.append({"range": [k, m_.start(), k, m_.end()], "text": new})
+                    lines = lines[:k] + [lines[k][:m_.start()] + new + lines[k][m_.end():]] + lines[k + 1:]
+                    continue
+                op = "mod"
+            if op == "undo":
+                # put a line back to what it was before an earlier modification (mid-line edit)
+                cands = [(k, old) for (nn, k, old) in history if nn == n and k < len(lines) and lines[k] != old
+                         and len(old) > 3 and len(lines[k]) > 3]
+                if cands:
+                    k, old = r.pick(cands)
+                    changes.append({"range": [k, 2, k, len(lines[k])], "text": old[2:]} if lines[k][:2] == old[:2]
+                                   else {"range": [k, 0, k, len(lines[k])], "text": old})
+                    lines = lines[:k] + [old] + lines[k + 1:]
+                    continue
+                op = "mod"
             if op == "add" or len(lines) <= lo + 1:
                 k = r.range(lo, len(lines))
                 ctr[0] += 1
@@ -677,6 +718,7 @@ def gen_c29(seed, idx):
                     new = f".k{ctr[0]} = {r.range(0, 50)}" if r.chance(0.5) else lines[k].split(" = ")[0] + f" = {r.range(0, 50)}"
                 else:
                     new = c29_def(r, ctr[0], [def_name(l) for l in lines[:k] if def_name(l)])
+                history.append((n, k, lines[k]))
                 changes.append({"range": [k, 0, k, len(lines[k])], "text": new})
                 lines = lines[:k] + [new] + lines[k + 1:]
         cur[n] = lines
@@ -757,15 +799,43 @@ def c29_judge(hist, work, res, fresh_res):
     for name in work["order"]:
         a = diag_keys(res, name)
         b = diag_keys(fresh_res, name)
-        if a != b:
-            only_a = [x for x in a if x not in b]
-            only_b = [x for x in b if x not in a]
-            # nothing missing, only extra or repeated entries: its own clause
+        sa, sb = sorted(set(a)), sorted(set(b))
+        if sa != sb:
+            only_a = [x for x in sa if x not in sb]
+            only_b = [x for x in sb if x not in sa]
+            # nothing missing, only extra entries: its own clause
             clause = "diagnostics_superset" if not only_b else "diagnostics_converge"
             bad.append({"clause": clause, "doc": name,
                         "detail": json.dumps({"stale_or_extra": only_a[:3], "missing": only_b[:3],
                                               "n_history": len(a), "n_fresh": len(b)})[:900]})
+        elif a != b:
+            # the same diagnostics, but some of them several times (on either side)
+            bad.append({"clause": "diagnostics_duplicated", "doc": name,
+                        "detail": json.dumps({"n_history": len(a), "n_fresh": len(b), "distinct": len(sa)})})
+    if bad:
+        ev = run_evidence(res)
+        for b_ in bad:
+            b_.update(ev)
     return bad
+
+
+def run_evidence(res):
+    """what the probes say about this run: did two analyses overlap, did a didSave take the
+    'nothing changed' short-cut"""
+    depth = {}
+    overlapped = False
+    skipped = 0
+    for name, data in res.get("probe_log", []):
+        thread = data.rsplit(" @", 1)[-1]
+        if name == "check_file_begin":
+            if any(v > 0 for t, v in depth.items() if t != thread):
+                overlapped = True
+            depth[thread] = depth.get(thread, 0) + 1
+        elif name == "check_file_end":
+            depth[thread] = max(0, depth.get(thread, 0) - 1)
+        elif name == "recheck_skipped_no_change":
+            skipped += 1
+    return {"checks_overlapped": overlapped, "recheck_skipped": skipped > 0}
 
 
 def c29_explore_one(seed, idx, w, d):
@@ -816,8 +886,7 @@ def valid_c29(hist):
                 l0, c0, l1, c1 = ch["range"]
                 if l0 >= len(lines) or l1 >= len(lines):
                     return False
-                # whole-line edits only: columns must still denote line starts / line ends
-                if c0 != 0 or (c1 != 0 and c1 != len(lines[l1])):
+                if c0 > len(lines[l0]) or c1 > len(lines[l1]) or (l0, c0) > (l1, c1):
                     return False
                 text = apply_changes(text, [ch])
             cur[e[1]] = text
@@ -870,6 +939,8 @@ def c29_predicates(hist):
         "autosave_after_delay": hist["autosave"] == "afterDelay",
         "two_docs": len(hist["names"]) > 1,
         "only_under_preemption": bool(hist.get("only_under_preemption")),
+        "checks_overlapped": bool(hist.get("checks_overlapped")),
+        "recheck_skipped": bool(hist.get("recheck_skipped")),
     }
 
 
@@ -932,6 +1003,8 @@ def run_c29(tier, seed, replay=None):
         seen = set()
         for m in minis:
             m["hist"]["only_under_preemption"] = m["only_under_preemption"]
+            m["hist"]["checks_overlapped"] = all(b_.get("checks_overlapped") for b_ in m["bad"])
+            m["hist"]["recheck_skipped"] = all(b_.get("recheck_skipped") for b_ in m["bad"])
             e = c29_match_known(m["hist"], m["sig"], m["bad"], known)
             if e:
                 report.known(e)
